@@ -261,11 +261,15 @@ impl InlineTypeResolver {
       .prepare_registration(schema, &unique_name, enum_cache_key)?;
     let named_type = SharedSchemaCache::apply_name_to_type(main_type, &registration.assigned_name);
     let final_name = registration.assigned_name.clone();
+    // The conversion may have produced helper types next to the main one (the known-values
+    // enum of a relaxed enum, variant structs). They are stored with it: not every caller
+    // keeps the returned inline types (a response body only keeps the type name).
+    let nested_types = generated[..generated.len() - 1].to_vec();
     self
       .context
       .cache
       .borrow_mut()
-      .commit_registration(registration, vec![], named_type);
+      .commit_registration(registration, nested_types, named_type);
 
     Ok(Some(ConversionOutput::with_inline_types(final_name, generated)))
   }
